@@ -426,6 +426,13 @@ def run(ctx):
     import rules_rounding as RR
     from interp import _static_frame
     ctx.rules.append('QPLACE: (ZERO op p).to_posit() == +/-p for every p and every base spelling (+= p, -= p, +=/-= (p, ONE), (ONE, p), add_product / sub_product)')
+    # QIMAGE: q0 += / -= (p, 2^t), (2^t, p), p for every posit p: the accumulator holds exactly q0 +/- p * 2^t afterwards (two's-complement image,
+    # bit for bit), from the cleared quire and from a constant whose carry runs through the limbs above the product
+    itasks = image_tasks(prog, ctx.tier)
+    ist = RR.run_parallel(ctx, prog, itasks, prefix='image_')
+    ctx.count('image_cells_total', ist['cells'])
+    ctx.count('image_cells_proved_total', ist['proved'])
+    ctx.rules.append('QIMAGE: accumulator image after accumulating p * 2^t (every posit p, symbolic) == q0 +/- p * 2^t exactly, incl. carries across limbs')
     ptasks = placement_tasks(prog, ctx.tier)
     st_ = RR.run_parallel(ctx, prog, ptasks, prefix='placement_')
     pc, pp = st_['cells'], st_['proved']
@@ -435,7 +442,7 @@ def run(ctx):
     ctx.require('C04 accumulate head cells decided', nacc, 300)
     ctx.require('C04 operand spellings', nsp, 48)
     ctx.count('dependence_sites', ndep)
-    ctx.undecided['general_path'] = 'exact placement of the product and carry propagation across limbs in the accumulate (hence order independence): decided only on the probed sequences'
+    ctx.undecided['general_path'] = 'the accumulate for two dense significands (the multiplier array) and for an arbitrary accumulator; order independence follows from exactness and is not decided separately'
     return LEVEL, ('is_zero/is_nar are decided for every accumulator state (all limbs); to_posit returns 0/NaR exactly there; NaR stickiness and zero operands for every '
                    'base spelling; all tuple/array spellings expand to the right products with the right sign; the accumulated value depends on flag, operands and accumulator; '
                    'to_posit is proved to be the single posit-rule rounding of the fixed-point value of the state on rounding cells covering the accumulator states (sampling as noted).')
